@@ -68,8 +68,33 @@ func c02Eval(s []byte) (diag, sig string, valid bool) {
 	if (rf.V2019 && int(h.ProtocolVersion) != 3) || (!rf.V2019 && int(h.ProtocolVersion) != 2) {
 		return bad("ProtocolVersion", h.ProtocolVersion, rf.V2019)
 	}
+	// the same frame through ONE message value and ONE buffer that have decoded every earlier accepted frame of this
+	// worker (a connection's read buffer and a re-used JTMessage): phone, ID, serial and body must be this frame's
+	if c02Reused == nil {
+		c02Reused, c02Shared = jt808.NewJTMessage(), make([]byte, 0, 4096)
+	}
+	if len(s) <= cap(c02Shared) {
+		buf := c02Shared[:len(s):len(s)]
+		copy(buf, s)
+		var rerr2 error
+		if p := vc.Catch(func() { rerr2 = c02Reused.Decode(buf) }); p != "" || rerr2 != nil {
+			c02Reused = nil
+			return fmt.Sprintf("a re-used message decoding from a re-used buffer fails (%v %s) on the well-formed frame %s", rerr2, p, hx(s)), "reused:rejects-valid", true
+		}
+		g := c02Reused.Header
+		if g.ID != rf.ID || g.TerminalPhoneNo != ref.PhoneString(rf.PhoneBCD) || g.SerialNumber != rf.Serial || !bytes.Equal(c02Reused.Body, rf.Body) {
+			got := fmt.Sprintf("ID=%#x phone=%s serial=%d body=%s", g.ID, g.TerminalPhoneNo, g.SerialNumber, hx(c02Reused.Body))
+			c02Reused = nil
+			return fmt.Sprintf("a re-used message decoding from a re-used buffer yields %s for frame %s (fresh: phone=%s serial=%d)", got, hx(s), ref.PhoneString(rf.PhoneBCD), rf.Serial), "reused:field", true
+		}
+	}
 	return "", "", true
 }
+
+var (
+	c02Reused *jt808.JTMessage
+	c02Shared []byte
+)
 
 func init() {
 	vc.Register(&vc.Check{
@@ -79,7 +104,7 @@ func init() {
 			"(ii) structured product: ID menu x property words (all single bits, version/fragment/encrypt combinations, declared length {0,1,2,5,1023}) x phone x serial x package fields x actual body length = declared+{-1,0,+1} " +
 			"x checksum {right, off by one bit, steered to 7D, steered to 7E} x escape rendering {canonical, raw 7D last, raw 7D elsewhere, 7D 00, 7D 03, 7D before the closing delimiter}; " +
 			"(iii) for valid frames of both versions with and without package fields: every truncation, every single-bit flip, every single-byte substitution by all 256 values, every single-byte insertion of a special byte, either delimiter removed. " +
-			"Strings with an interior 0x7E are outside the property and skipped. Non-trivial = the reference accepts the string (a valid frame whose fields are then compared) or the string differs from a valid frame in exactly one byte/bit",
+			"Every accepted frame is also decoded by ONE re-used message from ONE re-used buffer (fields must be this frame's). Strings with an interior 0x7E are outside the property and skipped. Non-trivial = the reference accepts the string (a valid frame whose fields are then compared) or the string differs from a valid frame in exactly one byte/bit",
 		Assumptions: []string{"reference validator harness/ref/frame.go; encryption field compared as bit 10 only, as the repository documents"},
 		Run:         c02Run,
 		Drivers: map[string]func(json.RawMessage) string{"c02": func(raw json.RawMessage) string {
